@@ -89,6 +89,31 @@ def rand_spec(r, d=None, G=None, nc=None, nn=None, positive_dt=True, ids=True):
                 dt=dt, basis=rand_basis(r, d))
 
 
+def with_runs(s, r, pattern):
+    """spec with the given run lengths of equal consecutive segments, e.g. (3, 1, 4): three equal segments, one
+    different, four equal (control and noise coefficients)"""
+    t = clone(s)
+    G = sum(pattern)
+    nc, nn = len(s['Hc']), len(s['Hn'])
+    cols_c = np.zeros((nc, G))
+    cols_n = np.zeros((nn, G))
+    g = 0
+    for k, L in enumerate(pattern):
+        cc = r.choice(COEFF_POOL, nc).astype(float)
+        cn = r.choice(COEFF_POOL, nn).astype(float)
+        cc[0] = float(k) + 0.125            # neighbouring runs differ
+        for _ in range(L):
+            cols_c[:, g], cols_n[:, g] = cc, cn
+            g += 1
+    t['Hc'] = [(o, cols_c[i].copy(), ident) for i, (o, _, ident) in enumerate(s['Hc'])]
+    t['Hn'] = [(o, cols_n[i].copy(), ident) for i, (o, _, ident) in enumerate(s['Hn'])]
+    t['dt'] = r.choice(DT_POOL + [0.3, 0.1, 0.7], G).astype(float) * r.choice([1.0, 1.0, 3.0], G)
+    return t
+
+
+RUN_PATTERNS = [(3,), (4,), (1, 3), (3, 2), (2, 1, 4), (5,), (3, 3), (1, 1, 3, 1)]
+
+
 def entry(o, c, i):
     return [o, c] if i is E.ABSENT else [o, c, i]
 
@@ -296,11 +321,15 @@ def run_pairs(ctx, r, n_base, failures, classes, samples):
     nev = 0
     for bi in range(n_base):
         s = rand_spec(r, positive_dt=True)
+        if bi % 2 == 1:                    # runs of three and more equal consecutive segments
+            s = with_runs(s, r, RUN_PATTERNS[(bi // 2) % len(RUN_PATTERNS)])
         p = build(s)
         base_lit = 'b%d' % bi
         defs.append((base_lit + '_j', 'Definition %s := %s.\n' % (base_lit, E.pulse(p)) + join_def(base_lit + '_j', base_lit, p)))
         meta.append(('join', 'join', spec_json(s), None))
         classes['join/G%d' % len(s['dt'])] = classes.get('join/G%d' % len(s['dt']), 0) + 1
+        if bi % 2 == 1:
+            classes['join/runs>=3'] = classes.get('join/runs>=3', 0) + 1
         k = 0
         for tag, t in mutations(s, r):
             q = build(t)
